@@ -141,6 +141,8 @@ def generate(rng, tier):
         case["call_norm_object"] = True
     if rng.random() < 0.2:
         case["alias"] = rng.sample([0, 1, 2], 2)
+    if rng.random() < 0.3:
+        case["scatter_size"] = rng.choice(["array_mm", "array_cm", "qty"])
     if rng.random() < 0.02:
         case["big"] = {"n": rng.choice([120000, 300000]), "res": rng.choice([4, 16]), "op": rng.choice(["sum", "mean"]), "seed": rng.getrandbits(30)}
     return case
@@ -231,7 +233,11 @@ class Shared:
                 if case["layer_opts"][k][o]:
                     kw[o] = lvalue(case, o)
             self.layers.append(self.dg.layer(keys[k], **kw))
-        self.scatter_layer = self.dg.layer("position", mode="scatter", s=2.0)
+        # the marker size of the overlay: a number, or a length (Array / Quantity) in one of the units the call works in
+        ss = case.get("scatter_size")
+        size = {None: 2.0, "array_mm": osyris.Array(values=0.5, unit="mm"), "array_cm": osyris.Array(values=0.05, unit="cm"),
+                "qty": 0.5 * osyris.units("mm")}[ss]
+        self.scatter_layer = self.dg.layer("position", mode="scatter", s=size)
         self.res_dict = dict(case["res_dict"])
         import matplotlib.colors as mcolors
 
@@ -694,6 +700,8 @@ def reductions(case, viol):
     yield from list_reductions(case, "calls")
     if case.get("alias"):
         yield {k: v for k, v in case.items() if k != "alias"}
+    if case.get("scatter_size"):
+        yield {k: v for k, v in case.items() if k != "scatter_size"}
     for k in range(3):
         for o in OPTS:
             if case["layer_opts"][k][o]:
